@@ -551,6 +551,10 @@ CORPUS = [
      "xs": [5, 6, 7], "salt": 0, "delays": [0, 2]},
     {"mode": "buffer", "style": "closure", "seg": [{"k": "zip_map2", "f": "inc", "g": "dbl"}, {"k": "starmap", "f": "rev*"}, {"k": "buffer", "n": 4}],
      "xs": [1, 2, 3, 4], "salt": 1, "delays": [1, 0]},
+    # un-awaited emissions, results fanned in straight to gather (several gather.update waiting for the ordering lock at once)
+    {"mode": "concurrent", "seg": [{"k": "sliding_window", "n": 3, "partial": True}, {"k": "union_map", "f": "neg"}],
+     "xs": [9, 1, 5, 1, 0, 3, 0, 7], "salt": 12, "delays": [1, 1, 5]},
+    {"mode": "concurrent", "seg": [{"k": "map", "f": "inc"}], "xs": [1, 2, 3, 4, 5, 6], "salt": 3, "delays": [6, 0, 0, 3]},
     # elements emitted while nothing is attached below scatter reach nobody, and their references are given back
     {"mode": "await", "late": 2, "seg": [{"k": "map", "f": "inc"}], "xs": [1, 2, 3, 4], "salt": 0, "delays": [0]},
     {"mode": "concurrent", "late": 1, "style": "closure", "seg": [{"k": "accumulate", "f": "add", "start": 0}], "xs": [1, 2, 3], "salt": 0, "delays": [2, 0]},
